@@ -746,16 +746,18 @@ def initialize_X_and_G(
             f"The size of correction vector ({n}) does"
             f" not match the size of x ({x.size})!"
         )
-    # restore the past X and G
+    # restore the past X and G: sk[i] = X[i + 1] - X[i] (chronological order), hence
+    # X[i] = x - sum_{j >= i} sk[j], i.e., a reverse cumulative sum.
     for x, g in zip(
-        checkpoint.x - np.cumsum(checkpoint.hess_inv.sk, axis=0),
-        checkpoint.jac - np.cumsum(checkpoint.hess_inv.yk, axis=0),
+        checkpoint.x - np.cumsum(checkpoint.hess_inv.sk[::-1], axis=0)[::-1],
+        checkpoint.jac - np.cumsum(checkpoint.hess_inv.yk[::-1], axis=0)[::-1],
     ):
+        X.append(x)
+        G.append(g)
+        # the current point is added later: keep the maxcor most recent ones
         if len(X) > maxcor:
             X.popleft()
             G.popleft()
-        X.append(x)
-        G.append(g)
     # at this point, X and G do not have x nor jac -> it is added a bit later
     return X, G
 
